@@ -2376,6 +2376,12 @@ func initSteps(repo string) (string, error) {
 	return stepTable(repo, "initSteps", "generator.go, init_option.go, persister.go", ts)
 }
 
+// lang/go/camel.go: the camel-casing of identifiers (protoc-gen-go's GoCamelCase, ported)
+func camelSteps(repo string) (string, error) {
+	return stepTable(repo, "camelSteps", "lang/go/camel.go", []stepTarget{
+		{"lang/go/camel.go", "", "PGGUpperCamelCase"}, {"lang/go/camel.go", "", "camelCase"}, {"lang/go/camel.go", "", "isASCIILower"}, {"lang/go/camel.go", "", "isASCIIDigit"}})
+}
+
 // lang/go/package.go: the pattern whose matches are replaced by "_" in package names
 func packagePattern(repo string) (string, error) {
 	f := parse(filepath.Join(repo, "lang/go/package.go"))
@@ -2544,16 +2550,20 @@ func stepTable(repo, defName, what string, targets []stepTarget) (string, error)
 					for _, l := range x.Lhs {
 						lhs = append(lhs, exprText(l))
 					}
+					asg := " = "
+					if x.Tok != token.ASSIGN && x.Tok != token.DEFINE {
+						asg = " " + x.Tok.String() + " " // `c ^= ' '`, `n += "_"`: the operator is part of the step
+					}
 					if len(x.Rhs) != 1 {
 						// `a, b = e1, e2`: by its text
 						var rhs []string
 						for _, r := range x.Rhs {
 							rhs = append(rhs, exprText(r))
 						}
-						steps = append(steps, strings.Join(lhs, ", ")+" = "+strings.Join(rhs, ", "))
+						steps = append(steps, strings.Join(lhs, ", ")+asg+strings.Join(rhs, ", "))
 						continue
 					}
-					if err := stepOf(x.Rhs[0], strings.Join(lhs, ", ")+" = "); err != nil {
+					if err := stepOf(x.Rhs[0], strings.Join(lhs, ", ")+asg); err != nil {
 						return err
 					}
 				case *ast.RangeStmt:
@@ -2563,14 +2573,21 @@ func stepTable(repo, defName, what string, targets []stepTarget) (string, error)
 					}
 					steps = append(steps, "}")
 				case *ast.ForStmt:
-					if x.Post != nil || x.Cond == nil {
-						return fmt.Errorf("%s.%s: for statement with a post statement or without a condition", t.recv, t.name)
+					if x.Cond == nil {
+						return fmt.Errorf("%s.%s: for statement without a condition", t.recv, t.name)
 					}
 					head := "for "
 					if x.Init != nil {
-						head += strings.Join(strings.Fields(stmtText(x.Init)), " ") + "; "
+						head += strings.Join(strings.Fields(stmtText(x.Init)), " ")
 					}
-					steps = append(steps, head+exprText(x.Cond)+" {")
+					if x.Init != nil || x.Post != nil {
+						head += "; "
+					}
+					head += exprText(x.Cond)
+					if x.Post != nil {
+						head += "; " + strings.Join(strings.Fields(stmtText(x.Post)), " ")
+					}
+					steps = append(steps, head+" {")
 					if err := walk(x.Body.List); err != nil {
 						return err
 					}
@@ -2661,6 +2678,8 @@ func stepTable(repo, defName, what string, targets []stepTarget) (string, error)
 				case *ast.DeclStmt:
 					// a local type or variable declaration: by its text
 					steps = append(steps, "decl "+strings.Join(strings.Fields(stmtText(x)), " "))
+				case *ast.IncDecStmt:
+					steps = append(steps, exprText(x.X)+x.Tok.String())
 				case *ast.BranchStmt:
 					steps = append(steps, x.Tok.String())
 				case *ast.ReturnStmt:
@@ -2893,7 +2912,7 @@ func genCode(repo string) (map[string]string, error) {
 	tables := []struct {
 		name string
 		gen  func(string) (string, error)
-	}{{"nameHelpers", nameHelpers}, {"acceptOrders", acceptOrders}, {"typePredicates", typePredicates}, {"hydratePhases", hydratePhases}, {"childAtPaths", childAtPaths}, {"workflowSteps", workflowSteps}, {"commentSteps", commentSteps}, {"persistSteps", persistSteps}, {"astEntrySteps", astEntrySteps}, {"packagePattern", packagePattern}, {"moduleSteps", moduleSteps}, {"importSteps", importSteps}, {"goNameSteps", goNameSteps}, {"sciSteps", sciSteps}, {"walkSteps", walkSteps}, {"goParamSteps", goParamSteps}, {"initSteps", initSteps}}
+	}{{"nameHelpers", nameHelpers}, {"acceptOrders", acceptOrders}, {"typePredicates", typePredicates}, {"hydratePhases", hydratePhases}, {"childAtPaths", childAtPaths}, {"workflowSteps", workflowSteps}, {"commentSteps", commentSteps}, {"persistSteps", persistSteps}, {"astEntrySteps", astEntrySteps}, {"packagePattern", packagePattern}, {"moduleSteps", moduleSteps}, {"importSteps", importSteps}, {"goNameSteps", goNameSteps}, {"sciSteps", sciSteps}, {"walkSteps", walkSteps}, {"goParamSteps", goParamSteps}, {"initSteps", initSteps}, {"camelSteps", camelSteps}}
 	for _, g := range tables {
 		t, err := g.gen(repo)
 		if err != nil {
